@@ -5,6 +5,7 @@ import ast
 import re
 
 from pta.check import Spec
+from pta.pat import find, has
 from pta.flow import Flow, _raises_only, paths_of
 from pta.model import AnalysisError
 from pta.rules.common import CACHED, CWALK, MAPPER, WALK, short
@@ -259,7 +260,7 @@ def r_call_check(c):
     call = m.func(FN + ".FunctionDefinition.__call__")
     ok = any(isinstance(i, ast.If) and isinstance(i.test, ast.Compare)
              and {ast.unparse(i.test.left), ast.unparse(i.test.comparators[0])} ==
-             {"self.parameters", "frozenset(kwargs)"}
+             {"self.parameters", f"frozenset({call.args.kwarg.arg})"}
              and isinstance(i.test.ops[0], ast.NotEq)
              and any(isinstance(s, ast.Raise) for s in i.body) for i in ast.walk(call))
     c.check(ok, "R12-CALL-CHECK", "FunctionDefinition.__call__",
@@ -275,12 +276,18 @@ def r_call_check(c):
             "FunctionDefinition.__call__", "check-before-construction",
             m.loc(m.module_of(call), call), "the argument check does not precede Call(...)")
     # dtype and shape of every argument are checked against the placeholder
-    src = ast.unparse(call)
-    for what, frag in (("dtype", "expected_arg.dtype != kwargs[argname].dtype"),
-                       ("shape", "are_shapes_equal(expected_arg.shape, kwargs[argname].shape)")):
-        c.check(frag in src, "R12-CALL-CHECK", "FunctionDefinition.__call__",
-                f"argument-{what}-checked", m.loc(m.module_of(call), call),
-                f"the {what} of an argument is no longer compared with its parameter's")
+    kwp = call.args.kwarg.arg if call.args.kwarg else "kwargs"
+    chk = find(call, f"""
+for $argname, $exp in self._placeholders.items():
+    if $exp.dtype != {kwp}[$argname].dtype:
+        raise ValueError($$m1)
+    if not are_shapes_equal($exp.shape, {kwp}[$argname].shape):
+        raise ValueError($$m2)
+""")
+    c.check(len(chk) == 1, "R12-CALL-CHECK", "FunctionDefinition.__call__",
+            "argument-dtype-and-shape-checked", m.loc(m.module_of(call), call),
+            "dtype and shape of every argument are no longer compared with those of the "
+            "parameter placeholder of the same name (raising)")
     pi = m.cls(FN + ".Call").methods.get("__post_init__")
     ok = pi is not None and any(
         isinstance(a, ast.Assert) and isinstance(a.test, ast.Compare)
@@ -291,7 +298,7 @@ def r_call_check(c):
             "Call no longer asserts that its bindings are exactly the function's "
             "parameters (sibling of FunctionDefinition.__call__'s check)")
     # bindings are passed on unchanged
-    c.check("Call(self, bindings=constantdict(kwargs)" in src, "R12-CALL-CHECK",
+    c.check(has(call, f"Call(self, bindings=constantdict({kwp}), tags=$$t)"), "R12-CALL-CHECK",
             "FunctionDefinition.__call__", "binds-the-given-arguments",
             m.loc(m.module_of(call), call),
             "the Call is not built from self and the given keyword arguments")
@@ -444,16 +451,16 @@ def r_return(c):
                 f"{a.get(mem)!r} but __call__ reads them under {b.get(mem)!r}")
     # Call.__getitem__ / NamedCallResult read function.returns[name]
     gi = m.func(FN + ".Call.__getitem__")
-    src = ast.unparse(gi)
-    c.check("NamedCallResult(self, name" in src and all(
-        f"self.function.returns[name].{f}" in src
-        for f in ("axes", "tags", "non_equality_tags")), "R12-RETURN", "Call.__getitem__",
-        "result-mirrors-named-return", m.loc(FN, gi),
-        "a call result is not built for (call, name) with the metadata of the "
-        "function's return of that name")
+    np_ = gi.args.args[1].arg
+    c.check(has(gi, f"""NamedCallResult(self, {np_}, axes=self.function.returns[{np_}].axes,
+                tags=self.function.returns[{np_}].tags,
+                non_equality_tags=self.function.returns[{np_}].non_equality_tags)"""),
+            "R12-RETURN", "Call.__getitem__", "result-mirrors-named-return", m.loc(FN, gi),
+            "a call result is not built for (call, name) with the metadata of the "
+            "function's return of that name")
     for prop in ("shape", "dtype"):
         pf = m.cls(FN + ".NamedCallResult").methods[prop]
-        c.check(f"self._container.function.returns[self.name].{prop}" in ast.unparse(pf),
+        c.check(has(pf, f"return self._container.function.returns[self.name].{prop}"),
                 "R12-RETURN", f"NamedCallResult.{prop}", "reads-named-return", m.loc(FN, pf),
                 f"the {prop} of a call result is not the {prop} of the function's return "
                 "of the same name")
@@ -463,59 +470,70 @@ def r_inline(c):
     m = c.model
     T = "pytato.transform.calls."
     mc = m.func(T + "Inliner.map_call")
-    src = ast.unparse(mc)
+    ep = mc.args.args[1].arg
     where = m.loc(m.module_of(mc), mc)
-    c.check(any(isinstance(i, ast.If) and "tags_of_type(InlineCallTag)" in ast.unparse(i.test)
-                for i in ast.walk(mc)), "R12-INLINE", "Inliner.map_call",
-            "inlines-only-tagged-calls", where, "calls are inlined regardless of the tag")
-    c.check("PlaceholderSubstitutor(expr.bindings)" in src, "R12-INLINE", "Inliner.map_call",
-            "substitutes-the-call's-bindings", where,
-            "the substitution is not built from the call's own bindings")
-    dcs = [d for d in ast.walk(mc) if isinstance(d, ast.DictComp)]
-    ok = False
-    for d in dcs:
-        g = d.generators[0]
-        if ast.unparse(g.iter) == "expr.function.returns.items()" and isinstance(g.target, ast.Tuple):
-            k, v = g.target.elts[0].id, g.target.elts[1].id
-            ok = ast.unparse(d.key) == k and f"self.rec(substitutor({v}))" in ast.unparse(d.value)
-    c.check(ok, "R12-INLINE", "Inliner.map_call", "results-keyed-by-return-names", where,
-            "the inlined results are not {return name: substituted, recursed return}")
-    c.check("super().map_call(expr)" in src, "R12-INLINE", "Inliner.map_call",
-            "untagged-calls-are-copied", where, "untagged calls are not copied as calls")
+    inl = find(mc, f"""
+if {ep}.tags_of_type(InlineCallTag):
+    $sub = PlaceholderSubstitutor({ep}.bindings)
+    return DictOfNamedArrays({{$n: _verify_is_array(self.rec($sub($r)))
+                              for $n, $r in {ep}.function.returns.items()}}, tags={ep}.tags)
+else:
+    return super().map_call({ep})
+""")
+    c.check(len(inl) == 1, "R12-INLINE", "Inliner.map_call",
+            "tagged:substitute-own-bindings-keyed-by-return-names;untagged:copied", where,
+            "a tagged call is not replaced by {return name: recursed, substituted return} "
+            "with the substitution built from the call's own bindings (keeping the call's "
+            "tags), or an untagged call is not simply copied")
     ps = m.func(T + "PlaceholderSubstitutor.map_placeholder")
-    c.check(any(isinstance(r, ast.Return) and ast.unparse(r.value) ==
-                "self.substitutions[expr.name]" for r in ast.walk(ps)), "R12-INLINE",
-            "PlaceholderSubstitutor.map_placeholder", "substitutes-by-name", m.loc(m.module_of(ps), ps),
-            "a parameter placeholder is not replaced by the binding of its own name")
+    c.check(has(ps, f"return self.substitutions[{ps.args.args[1].arg}.name]")
+            and not any(isinstance(x, ast.Call) and "rec" in ast.unparse(x.func)
+                        for x in ast.walk(ps)), "R12-INLINE",
+            "PlaceholderSubstitutor.map_placeholder", "substitutes-by-name-without-recursing",
+            m.loc(m.module_of(ps), ps),
+            "a parameter placeholder is not replaced by exactly the binding of its own "
+            "name (recursing into the binding would substitute caller placeholders that "
+            "are named like parameters)")
     pf = m.func(T + "PlaceholderSubstitutor.map_function_definition")
-    c.check(any(isinstance(r, ast.Return) and ast.unparse(r.value) == "expr"
-                for r in ast.walk(pf)) and "rec" not in ast.unparse(pf), "R12-INLINE",
+    c.check(has(pf, f"return {pf.args.args[1].arg}") and not any(
+        isinstance(x, ast.Call) for x in ast.walk(pf)), "R12-INLINE",
             "PlaceholderSubstitutor.map_function_definition", "does-not-enter-nested-functions",
             m.loc(m.module_of(pf), pf),
             "the substitution descends into nested function definitions (their "
             "parameters are a different name space)")
+    sub_init = m.func(T + "PlaceholderSubstitutor.__init__")
+    c.check(has(sub_init, "super().__init__()"), "R12-INLINE", "PlaceholderSubstitutor.__init__",
+            "fresh-cache-per-call-site", m.loc(m.module_of(sub_init), sub_init),
+            "the substitutor of a call site does not start with its own empty cache: the "
+            "substituted body of one call site is reused for another call of the same "
+            "definition with other arguments")
     nr = m.func(T + "Inliner.map_named_call_result")
-    s2 = ast.unparse(nr)
-    c.check("new_call_or_inlined_expr[expr.name]" in s2 and s2.count("[expr.name]") == 2,
-            "R12-INLINE", "Inliner.map_named_call_result", "selects-result-by-name",
+    ep2 = nr.args.args[1].arg
+    c.check(has(nr, f"""
+$new = self.rec({ep2}._container)
+assert isinstance($new, AbstractResultWithNamedArrays)
+if isinstance($new, Call):
+    return $new[{ep2}.name]
+else:
+    return $new[{ep2}.name].expr
+"""), "R12-INLINE", "Inliner.map_named_call_result", "selects-result-by-name",
             m.loc(m.module_of(nr), nr), "the inlined result is not selected by the "
             "call result's own name")
     im = m.func(T + "InlineMarker.map_call")
-    c.check("super().map_call(expr).tagged(InlineCallTag())" in ast.unparse(im),
+    c.check(has(im, f"return super().map_call({im.args.args[1].arg}).tagged(InlineCallTag())"),
             "R12-INLINE", "InlineMarker.map_call", "only-adds-the-tag", m.loc(m.module_of(im), im),
             "marking a call for inlining does more than tag the copied call")
-    # Inliner disables duplicate/collision checks (it merges name spaces) and dedups after
     ic = m.func(T + "inline_calls")
-    c.check("deduplicate(Inliner()(expr))" in ast.unparse(ic), "R12-INLINE", "inline_calls",
-            "deduplicates-after-inlining", m.loc(m.module_of(ic), ic),
+    c.check(has(ic, f"return deduplicate(Inliner()({ic.args.args[0].arg}))"), "R12-INLINE",
+            "inline_calls", "deduplicates-after-inlining", m.loc(m.module_of(ic), ic),
             "the inlined graph is not de-duplicated")
 
 
 SPEC = Spec(
     prop="C12",
     rules=[r_names, r_call_check, r_namespace, r_return, r_inline],
-    floors={"R12-NAMES": 10, "R12-CALL-CHECK": 6, "R12-NAMESPACE": 10, "R12-RETURN": 6,
-            "R12-INLINE": 9},
+    floors={"R12-NAMES": 10, "R12-CALL-CHECK": 5, "R12-NAMESPACE": 10, "R12-RETURN": 6,
+            "R12-INLINE": 7},
     explanation=(
         "R12-NAMES: trace_call is evaluated abstractly with name-origin templates "
         "({#} = position, {KW} = raw keyword): the names of the placeholders "
